@@ -1,8 +1,12 @@
-(* C15 — property theorems (stub while the correspondence is being established) *)
-From Coq Require Import List Arith Bool.
+(* C15 — property theorems only; each is closed by a lemma of Lemmas.v / LemmasInit.v / Refuted.v.
+   c ranges over every configuration (declared and dynamically scanned modules, kinds, attachments, flags) in every
+   declaration order, sched over every interleaving of startModule calls, poll thread steps and the time-out,
+   limit over every depth bound of the interpreter, fuel over every step budget of the model. *)
+From Coq Require Import List Arith Bool Lia.
 Import ListNotations.
-Require Import FV.Gen.C15 FV.C15.Model.
+Require Import FV.Gen.C15 FV.C15.Model FV.C15.Lemmas FV.C15.LemmasInit FV.C15.Refuted.
 
+(* obligations on the facts regenerated from /repo (Gen/C15.v) *)
 Theorem C15_source_facts :
   get_module_early_then_init_then_flag = true /\ processcfg_order = true /\
   descriptive_data_initialises_exported = true /\ shutdown_stops_pollers_first = true /\
@@ -11,4 +15,130 @@ Theorem C15_source_facts :
   attached_get_checks = true /\ hasio_creates_io_once_per_uri = true /\
   multievent_set_only_when_all_triggered = true /\ 0 < start_timeout.
 Proof. repeat split; try reflexivity; apply Nat.ltb_lt; reflexivity. Qed.
+
+(* FULL STATEMENT (refuted as it stands, see C15_refuted_unexported_never_initialised): every module of the node
+   is early-initialised, initialised and started exactly once, in that order.
+   PROVED, for every acyclic attachment graph (rank decreases along every attachment and io reference) on a node
+   whose creatable modules have all been created (closed; the state after create_modules without Pinata):
+   a module that get_module marked as initialised got exactly one earlyInit and at most one initModule (exactly
+   one unless its earlyInit raised), a module that was never handed out got none.  The modules that are never
+   handed out are exactly the finding class: not exported and attached by nobody. *)
+Theorem C15_init_once_acyclic_except_never_initialised :
+  forall (rank : name -> nat) limit fuel st,
+    fresh rank st -> stuck (init_all limit fuel st) = false ->
+    forall m, let st' := init_all limit fuel st in
+      (isinit st' m = false -> ce m (trace st') = 0 /\ ci m (trace st') = 0) /\
+      (isinit st' m = true -> ce m (trace st') = 1 /\ ci m (trace st') <= 1).
+Proof. intros rank limit fuel st F NS m. exact (init_all_once rank limit fuel st F NS m). Qed.
+
+(* the same as an invariant of every single step of the get_module / Attached.__get__ machine: no module is
+   re-entered (the stack of active initialisations is strictly ordered by rank), counts as above *)
+Theorem C15_no_reentry_acyclic :
+  forall (rank : name -> nat) limit st, LInv rank st -> LInv rank (step limit st).
+Proof. intros; apply step_LInv; assumption. Qed.
+
+(* a missing attached module, a wrongly typed one and an attachment chain deeper than the interpreter allows
+   (what a cyclic attachment runs into) are each recorded as an error of the module being initialised, which is
+   then left; errors are never removed by a later step *)
+Theorem C15_bad_attachment_recorded :
+  (forall limit st fr rest idx a ops b,
+     stack st = fr :: rest -> f_ops fr = OAccess idx a :: ops ->
+     find idx (attached_of st (f_mod fr)) = None -> a_target a = Some b ->
+     has_key b (modules st) = false -> find b (avail st) = None ->
+     errors (step limit st) = ErrInit (f_mod fr) :: errors st /\ stack (step limit st) = rest) /\
+  (forall limit st fr rest idx a ops b,
+     stack st = fr :: rest -> f_ops fr = ORet idx a b :: ops ->
+     want_ok (a_want a) (d_tag (decl_of st b)) = false ->
+     errors (step limit st) = ErrInit (f_mod fr) :: errors st /\ stack (step limit st) = rest) /\
+  (forall limit st fr rest idx a ops b,
+     stack st = fr :: rest -> f_ops fr = OAccess idx a :: ops ->
+     find idx (attached_of st (f_mod fr)) = None -> a_target a = Some b ->
+     has_key b (modules st) = true -> isinit st b = false -> limit <= length (stack st) ->
+     errors (step limit st) = ErrInit (f_mod fr) :: errors st /\ overflow (step limit st) = true) /\
+  (forall limit st, exists errs, errors (step limit st) = errs ++ errors st).
+Proof.
+  split; [|split; [|split]].
+  - intros. edestruct step_missing_reported as [A [B _]]; eauto.
+  - intros. eapply step_wrong_type_reported; eauto.
+  - intros. eapply step_depth_reported; eauto.
+  - intros. apply step_errors_monotone.
+Qed.
+
+(* a reported error is a configuration error instead of a half-started node: under every schedule the node never
+   reports ready, never waits for the start events, and is either still calling startModule or has exited *)
+Theorem C15_errors_never_ready :
+  forall limit fuel c sched,
+    errors (initialised limit fuel c) <> [] ->
+    let s := started limit fuel c sched in
+    no_ready (trace (s_node s)) /\ s_pc s <> MRun /\ s_pc s <> MWait /\
+    (s_pc s = MExited \/ exists m rest, s_pc s = MStart (m :: rest)).
+Proof. intros; apply errors_never_ready; assumption. Qed.
+
+(* the node reports ready only after every poll thread called its started callback (ready = true), or after the
+   time-out while some poll thread had not finished its first round (ready = false); nothing is reported twice *)
+Theorem C15_ready_after_first_round :
+  forall limit fuel c sched,
+    let s := started limit fuel c sched in
+    s_pc s = MRun ->
+    exists b pre, trace (s_node s) = EReady b :: pre /\ no_ready pre /\
+      (b = true -> forall th, In th (s_threads s) -> In (EStarted (t_id th)) pre) /\
+      (b = false -> exists th, In th (s_threads s) /\ t_done th = false).
+Proof. intros; apply ready_after_first_round; assumption. Qed.
+
+(* the first round of a poll thread: every configured start value of every module it serves is written (and
+   initialReads called) before the first read of any of them, the started callback comes last *)
+Theorem C15_writes_before_first_poll :
+  forall st t, exists A B,
+    thread_prog st t = A ++ B ++ [EStarted t] /\
+    (forall m k, ~ In (ERead m k) A) /\ (forall e, In e B -> exists m k, e = ERead m k) /\
+    (forall m k, In (EWrite m k) A -> In m (polled_of st t) /\ In k (d_writes (decl_of st m))) /\
+    (forall m, In m (polled_of st t) -> forall k, In k (d_writes (decl_of st m)) -> In (EWrite m k) A).
+Proof. intros; apply thread_prog_shape. Qed.
+
+(* shutdown: every poll thread is asked to stop (twice: stopPollThread, joinPollThread) before the first
+   shutdownModule, all of it after ready; a node that never became ready is not shut down by this path *)
+Theorem C15_shutdown_stops_pollers_first :
+  forall s order,
+    (s_pc s = MRun ->
+     trace (shutdown s order) =
+       rev (map EShutdown (sorted_modules (s_node s) order)) ++
+       rev (map EStop (stops_of s ++ stops_of s)) ++ trace (s_node s)) /\
+    (s_pc s <> MRun -> shutdown s order = s_node s).
+Proof. intros; split; [apply shutdown_trace|apply shutdown_not_running]. Qed.
+
+(* non-vacuity: user declared before the module it attaches; shared poll-free run to completion *)
+Definition demo_cfg : cfg :=
+  {| c_static := [(0, plain true [to 1] [0; 1]); (1, plain true [] [])]; c_dyn := [] |}.
+Example C15_demo :
+  rev (trace (lifecycle 40 2000 demo_cfg
+                [SMain; SThread 0; SThread 0; SMain; SThread 0; SThread 0; SThread 0; SThread 0;
+                 SThread 1; SThread 1; SThread 1; SThread 1; SMain] [0; 1])) =
+  [EEarly 0; EInit 0; EEarly 1; EInit 1; ESee 0 0 (Some 1) true; EStart 0; EWrite 0 0; EWrite 0 1; EStart 1;
+   EIReads 0; ERead 0 0; ERead 0 1; EStarted 0; EIReads 1; ERead 1 0; ERead 1 1; EStarted 1; EReady true;
+   EStop 0; EStop 1; EStop 0; EStop 1; EShutdown 0; EShutdown 1].
+Proof. vm_compute. reflexivity. Qed.
+
+(* non-vacuity of the hypotheses of C15_init_once_acyclic_except_never_initialised *)
+Definition demo_rank (n : name) : nat := match n with 0 => 1 | _ => 0 end.
+Example C15_fresh_demo : fresh demo_rank (create_all 40 2000 demo_cfg) /\
+  stuck (init_all 40 2000 (create_all 40 2000 demo_cfg)) = false /\
+  isinit (init_all 40 2000 (create_all 40 2000 demo_cfg)) 0 = true.
+Proof.
+  split; [|split; vm_compute; reflexivity].
+  unfold fresh. split; [vm_compute; reflexivity|]. split; [vm_compute; reflexivity|]. split; [|split].
+  - intros [|[|m]]; vm_compute; reflexivity.
+  - intros [|[|b]] d; vm_compute; intros F K; try discriminate.
+  - intros [|[|b]]; vm_compute; intros K; try discriminate;
+    repeat (apply Forall_cons; [first [exact I | intros t E; inversion E; subst; vm_compute; lia]|]); apply Forall_nil.
+Qed.
+
 Print Assumptions C15_source_facts.
+Print Assumptions C15_init_once_acyclic_except_never_initialised.
+Print Assumptions C15_no_reentry_acyclic.
+Print Assumptions C15_bad_attachment_recorded.
+Print Assumptions C15_errors_never_ready.
+Print Assumptions C15_ready_after_first_round.
+Print Assumptions C15_writes_before_first_poll.
+Print Assumptions C15_shutdown_stops_pollers_first.
+Print Assumptions C15_refuted_unexported_never_initialised.
+Print Assumptions C15_refuted_pinata_order_dependent.
